@@ -5,7 +5,7 @@ cd "$(dirname "$0")"
 export GOFLAGS=-mod=mod GOPROXY=off CGO_ENABLED=0
 mkdir -p bin evidence replays
 (cd tools/extract && go build -o ../../bin/extract .)
-./bin/extract /repo lean/Bolt/Gen
+./bin/extract /repo "$(pwd)/lean/Bolt/Gen"
 (cd lean && lake build Bolt boltmodel)
 cp /repo/go.sum harness/go.sum
 (cd harness && go build -tags verif -o ../bin/vh .)
